@@ -29,7 +29,9 @@ Out(o) ==
           ret |-> IF Returns(o.op) THEN e.ret ELSE 0]
     ELSE [o |-> o, ok |-> 0, off |-> ErrOf(o, e).off, dir |-> ErrOf(o, e).dir,
           \* the error kind is part of the property only for the split / rsplit protocol
-          kind |-> IF o.op \in {"split", "rsplit"} THEN e.kind ELSE ""]
+          kind |-> IF o.op \in {"split", "rsplit"} THEN e.kind ELSE "",
+          \* beyond the listed properties: the kind of every error and the text of its Display / panic message
+          xkind |-> e.kind, msg |-> ErrMsg(o, e)]
 
 Line == [m |-> "Parser", s |-> orig, base |-> base, path |-> hist,
          st |-> [lo |-> lo, hi |-> hi, so |-> so, dir |-> dir],
